@@ -81,6 +81,8 @@ func main() {
 		cmdReplay(os.Args[2:])
 	case "build":
 		cmdBuild(os.Args[2:])
+	case "selftest":
+		cmdSelftest(os.Args[2:])
 	default:
 		die2("unknown command %q", os.Args[1])
 	}
@@ -253,6 +255,8 @@ func (k *knownFile) match(prop string, v *simkit.Violation) *knownFinding {
 
 // ---------------------------------------------------------------- check
 
+var workerGOMAXPROCS = 2
+
 type chunk struct {
 	variant  string
 	from, to int
@@ -269,7 +273,7 @@ type workerOutcome struct {
 func runWorker(bin string, variant string, env map[string]string, timeout time.Duration) (exit int, stderrTail string) {
 	cmd := exec.Command(bin, "-test.run", "^TestWorker$", "-test.timeout", "0")
 	e := os.Environ()
-	e = append(e, "GOGC=800", "GOMAXPROCS=2", "VERIF_WORK="+scratchRoot(), "VERIF_BUILD_TAGS="+variant)
+	e = append(e, "GOGC=800", fmt.Sprintf("GOMAXPROCS=%d", workerGOMAXPROCS), "VERIF_WORK="+scratchRoot(), "VERIF_BUILD_TAGS="+variant)
 	for k, v := range env {
 		e = append(e, k+"="+v)
 	}
@@ -405,6 +409,9 @@ func cmdCheck(args []string) {
 	runs := fs.Int("runs", 0, "override number of runs per variant")
 	workers := fs.Int("workers", 16, "parallel worker processes")
 	wall := fs.Int("wall", 0, "override wall budget (s)")
+	chunkFlag := fs.Int("chunk", 0, "override runs per worker process")
+	gmp := fs.Int("gomaxprocs", 2, "GOMAXPROCS of each worker")
+	hashesOut := fs.String("hashes-out", "", "selftest: write index<TAB>variant<TAB>log_hash lines here and skip evidence/exit-code logic")
 	if len(args) < 1 {
 		die2("usage: verif check <Cxx> [--tier ...]")
 	}
@@ -455,10 +462,15 @@ func cmdCheck(args []string) {
 	os.MkdirAll(cdir, 0755)
 	os.RemoveAll(scratchRoot())
 	defer os.RemoveAll(scratchRoot())
+	chunkSize := pc.Chunk
+	if *chunkFlag > 0 {
+		chunkSize = *chunkFlag
+	}
+	workerGOMAXPROCS = *gmp
 	var chunks []chunk
 	for _, v := range pc.Variants {
-		for from := 0; from < n; from += pc.Chunk {
-			to := from + pc.Chunk
+		for from := 0; from < n; from += chunkSize {
+			to := from + chunkSize
 			if to > n {
 				to = n
 			}
@@ -544,6 +556,27 @@ func cmdCheck(args []string) {
 		}(w)
 	}
 	wg.Wait()
+	if *hashesOut != "" {
+		var lines []string
+		for _, r := range a.results {
+			v := ""
+			for k := range r.Counters {
+				if strings.HasPrefix(k, "variant:") {
+					v = k
+				}
+			}
+			viol := ""
+			if r.Violation != nil {
+				viol = r.Violation.Class + "/" + r.Violation.Key
+			}
+			lines = append(lines, fmt.Sprintf("%d\t%s\t%s\t%s\t%s", r.Index, v, r.LogHash, viol, r.HarnessError))
+		}
+		sort.Strings(lines)
+		os.WriteFile(*hashesOut, []byte(strings.Join(lines, "\n")+"\n"), 0644)
+		os.RemoveAll(scratchRoot())
+		fmt.Printf("wrote %d hashes to %s (%d harness errors)\n", len(lines), *hashesOut, len(a.harnessErrs))
+		return
+	}
 	finishCheck(id, pc, *tier, seed, a, start, buildS, skipped*pc.Chunk, n*len(pc.Variants), bins)
 }
 
@@ -687,4 +720,59 @@ func cmdReplay(args []string) {
 		os.Exit(1)
 	}
 	fmt.Println("no violation on this tree")
+}
+
+// cmdSelftest proves determinism of a property's engine on a sample: the same
+// seeds are executed three times in different processes, at different
+// positions within a worker's batch (chunk sizes), worker counts and
+// GOMAXPROCS; the event-log hashes per run index must be identical.
+func cmdSelftest(args []string) {
+	if len(args) < 1 {
+		die2("usage: verif selftest <Cxx> [runs]")
+	}
+	id := args[0]
+	runs := "120"
+	if len(args) > 1 {
+		runs = args[1]
+	}
+	pc := props[id]
+	if pc == nil {
+		die2("unknown property %s", id)
+	}
+	self, _ := os.Executable()
+	dir := filepath.Join(workDir(), "selftest", id)
+	os.MkdirAll(dir, 0755)
+	cfgs := [][]string{{"--workers", "16", "--gomaxprocs", "1", "--chunk", fmt.Sprint(pc.Chunk)}, {"--workers", "5", "--gomaxprocs", "4", "--chunk", fmt.Sprint(pc.Chunk*2 + 3)}, {"--workers", "11", "--gomaxprocs", "16", "--chunk", "7"}}
+	var files []string
+	for i, c := range cfgs {
+		f := filepath.Join(dir, fmt.Sprintf("hashes-%d.tsv", i))
+		files = append(files, f)
+		cmd := exec.Command(self, append([]string{"check", id, "--runs", runs, "--hashes-out", f}, c...)...)
+		cmd.Env = append(os.Environ(), "VERIF_NOMIN=1")
+		out, err := cmd.CombinedOutput()
+		if err != nil {
+			die2("selftest run %d failed: %v\n%s", i, err, tail(string(out), 20))
+		}
+	}
+	base, _ := os.ReadFile(files[0])
+	ok := true
+	for i := 1; i < len(files); i++ {
+		b, _ := os.ReadFile(files[i])
+		if string(b) != string(base) {
+			ok = false
+			al, bl := strings.Split(string(base), "\n"), strings.Split(string(b), "\n")
+			n := 0
+			for j := 0; j < len(al) && j < len(bl); j++ {
+				if al[j] != bl[j] && n < 8 {
+					fmt.Printf("DIVERGES config0 vs config%d:\n  %s\n  %s\n", i, al[j], bl[j])
+					n++
+				}
+			}
+		}
+	}
+	if !ok {
+		fmt.Printf("SELFTEST %s: NOT deterministic\n", id)
+		os.Exit(2)
+	}
+	fmt.Printf("SELFTEST %s: deterministic over %s runs x 3 configurations (workers 16/5/11, GOMAXPROCS 1/4/16, chunk %d/%d/7)\n", id, runs, pc.Chunk, pc.Chunk*2+3)
 }
